@@ -83,7 +83,9 @@ fn parse_array(buf: &[u8]) -> Result<(ArrayIndex, usize), ParseError> {
     }
 
     let array_size = len as usize;
-    let mut array = Vec::with_capacity(array_size);
+    // Do not trust the declared length when allocating:
+    // the number of elements is bounded by the data received so far.
+    let mut array = Vec::with_capacity(array_size.min(buf.len().saturating_sub(consumed)));
 
     for _ in 0..array_size {
         let next_buf = buf.get(consumed..).ok_or(ParseError::InvalidProtocol)?;
